@@ -201,11 +201,69 @@ class CaseResult(object):
         self.viol.append(d)
 
 
+def env_snapshot():
+    """Process-wide state a library call must leave as it found it (whether it returns or raises): the package switch, numpy's error
+    state and print options, the public tables other calls read (name dictionary, form-factor table), the working directory.  Returned as {item: comparable value}."""
+    import numpy as np
+
+    snap = {"numpy.geterr": dict(np.geterr()), "numpy.printoptions": {k: (v if not callable(v) else "callable") for k, v in np.get_printoptions().items()},
+            "cwd": os.getcwd(), "recursionlimit": sys.getrecursionlimit()}
+    x = sys.modules.get("xfab")
+    if x is not None and hasattr(x, "CHECKS"):
+        try:
+            snap["xfab.CHECKS.activated"] = bool(x.CHECKS.activated)
+        except Exception as ex:  # noqa: BLE001
+            snap["xfab.CHECKS.activated"] = repr(ex)
+    m = sys.modules.get("xfab.sg")
+    if m is not None and hasattr(m, "sgdic"):
+        snap["xfab.sg.sgdic"] = hash(tuple(sorted((str(k), str(v)) for k, v in m.sgdic.items())))
+    m = sys.modules.get("xfab.atomlib")
+    if m is not None and hasattr(m, "formfactor"):
+        snap["xfab.atomlib.formfactor"] = hash(tuple(sorted((str(k), tuple(float(z) for z in v)) for k, v in m.formfactor.items())))
+    return snap
+
+
+def env_restore(before):
+    import numpy as np
+
+    try:
+        np.seterr(**before["numpy.geterr"])
+        po = {k: v for k, v in before["numpy.printoptions"].items() if v != "callable"}
+        np.set_printoptions(**po)
+        os.chdir(before["cwd"])
+        x = sys.modules.get("xfab")
+        if x is not None and isinstance(before.get("xfab.CHECKS.activated"), bool):
+            x.CHECKS.activated = before["xfab.CHECKS.activated"]
+    except Exception:  # noqa: BLE001
+        pass
+
+
 def _run_one(args):
-    """Worker: run check_case on one case, never let an exception escape silently."""
+    """Worker: run check_case on one case, never let an exception escape silently.  The process-wide state (env_snapshot) is compared
+    before / after the case: the harness restores whatever it alters itself, so a difference was made by a library call."""
     modname, idx = args
     mod = sys.modules[modname]
     case = _CASES[idx]
+    before = env_snapshot()
+    # environment alphabet, part "logging": half of the cases run with xfab's loggers enabled at DEBUG (into a sink), half with logging
+    # disabled; which half flips in the second schedule.  Results must not depend on it.
+    debug_on = (bin(idx).count("1") + _PASS) % 2 == 1
+    set_logging(debug_on)
+    # ambient activity (xmc/ambient.py): before every fourth case every other public function of the package is called once with valid
+    # arguments, before every sixteenth with out-of-domain arguments, in this same process
+    swept = None
+    if not getattr(mod, "NO_AMBIENT", False):
+        try:
+            from . import ambient
+
+            if idx % 4 == 1:
+                ambient.sweep("valid")
+                swept = "valid"
+            if idx % 16 == 3:
+                ambient.sweep("junk")
+                swept = "junk"
+        except Exception:  # noqa: BLE001
+            pass
     try:
         r = mod.check_case(case)
     except Exception as ex:  # a crash of the harness or of the library on a valid input
@@ -213,12 +271,56 @@ def _run_one(args):
         r.evals = 1
         r.violation("case%d:exception" % idx, "exception while checking case: %r" % (ex,),
                     observed=traceback.format_exc()[-1500:])
+    set_logging(False)
+    after = env_snapshot()
+    for k in before:
+        r.evals += 1
+        if after.get(k) != before[k]:
+            r.violation("case%d:environment:%s%s" % (idx, k, "" if not swept else ":after-%s-sweep" % swept),
+                        "library calls leave process-wide state as they found it (%s), whether they return or raise" % k, before[k], after.get(k))
+    if after != before:
+        env_restore(before)
+    if swept or debug_on:
+        r.extra = dict(r.extra or {})
+        if swept:
+            r.extra["ambient_sweep"] = swept
+        for v in r.viol:
+            v.setdefault("context", {})
+            v["context"].update({"logging_debug": debug_on, "ambient_sweep_before_case": swept})
     out = {"idx": idx, "evals": r.evals, "nontrivial": sorted(r.nontrivial), "viol": r.viol, "worst": r.worst,
            "states": r.states, "transitions": r.transitions, "traces": r.traces, "extra": r.extra}
     return out
 
 
 _CASES = []
+_PASS = 0  # 0: main schedule, 1: second (reverse) schedule; flips the logging half
+_SINK = None
+
+
+def set_logging(debug):
+    """xfab's module loggers write to stderr through their own StreamHandlers: enabled = level DEBUG with the handlers' streams pointed at
+    os.devnull (every message is still formatted and emitted); disabled = logging.disable(CRITICAL), the state bind_repo leaves."""
+    import logging
+
+    global _SINK
+    names = [n for n in list(logging.root.manager.loggerDict) if n == "xfab" or n.startswith("xfab.")]
+    if debug:
+        if _SINK is None:
+            _SINK = open(os.devnull, "w")
+        logging.disable(logging.NOTSET)
+        for n in names:
+            lg = logging.getLogger(n)
+            lg.setLevel(logging.DEBUG)
+            for h in lg.handlers:
+                if isinstance(h, logging.StreamHandler) and h.stream is not _SINK:
+                    try:
+                        h.setStream(_SINK)
+                    except Exception:  # noqa: BLE001
+                        pass
+    else:
+        for n in names:
+            logging.getLogger(n).setLevel(logging.NOTSET)
+        logging.disable(logging.CRITICAL)
 
 
 def run_cases(mod, cases, procs=None, order=None, contiguous=False):
@@ -228,8 +330,9 @@ def run_cases(mod, cases, procs=None, order=None, contiguous=False):
     contiguous  False: cases are dealt out one at a time (each worker sees an interleaved ascending subsequence);
                 True: each worker gets one contiguous block of `order` (used by the reverse-schedule pass, so that
                 every case is also evaluated after a different set of predecessors, in the opposite order)."""
-    global _CASES
+    global _CASES, _PASS
     _CASES = cases
+    _PASS = 1 if contiguous else 0
     procs = procs or nproc()
     idxs = list(range(len(cases))) if order is None else list(order)
     jobs = [(mod.__name__, i) for i in idxs]
@@ -507,6 +610,42 @@ def same_value(a, b):
         return a == b
 
 
+def _is_container(x):
+    import numpy as np
+
+    if isinstance(x, np.ndarray):
+        return x.dtype.kind in "fiubc"
+    if isinstance(x, list) or (isinstance(x, tuple) and any(isinstance(e, (list, np.ndarray, tuple)) for e in x)):
+        try:
+            return np.asarray(x).dtype.kind in "fiubc"  # numeric (nested) sequences only; lists of objects are not compared
+        except Exception:  # noqa: BLE001
+            return False
+    return False
+
+
+def _snap_args(args, kw):
+    """deep copies of the mutable numeric containers among the arguments (position / keyword -> copy)"""
+    import copy
+
+    out = {}
+    for k, v in list(enumerate(args)) + list(kw.items()):
+        if _is_container(v):
+            try:
+                out[k] = copy.deepcopy(v)
+            except Exception:  # noqa: BLE001
+                pass
+    return out
+
+
+def _args_unchanged(r, key, snap, args, kw):
+    """a call must leave the caller's argument objects as they were (the caller goes on using them)"""
+    for k, before in snap.items():
+        now = args[k] if isinstance(k, int) else kw[k]
+        r.evals += 1
+        if not same_value(before, now):
+            r.violation("%s:argument-%s-modified" % (key, k), "a call leaves the argument objects of its caller unchanged", _short(before), _short(now))
+
+
 def twice(r, key, fn, *args, **kw):
     """History probe for functions that should behave as pure functions of their argument VALUES.
 
@@ -520,8 +659,10 @@ def twice(r, key, fn, *args, **kw):
     Returns the clean copy c1.  It is a length-3/4 history executed on every input it is applied to."""
     sort_rows = kw.pop("_sort_rows", False)
     other = kw.pop("_other", None)
+    snap = _snap_args(args, kw)
     r1 = fn(*args, **kw)
     c1 = _copy(r1)
+    _args_unchanged(r, key, snap, args, kw)
     if other is not None:
         fn(*other)
         r.evals += 1
@@ -529,7 +670,13 @@ def twice(r, key, fn, *args, **kw):
             r.violation(key + ":earlier-result", "a result already returned is not changed by a later call with other arguments", _short(c1), _short(r1))
             r1 = _copy(c1)
     scribble(r1)
+    s1 = _copy(r1)
     r2 = fn(*args, **kw)
+    r.evals += 1
+    if not same_value(r1, s1):
+        # the object handed out by the first call belongs to the caller: a later call must not write into it (a result that is a view of
+        # an internal buffer, a mutable default argument used as output array)
+        r.violation(key + ":first-result-overwritten", "an object already returned to the caller (and edited by the caller) is not modified by a later call", _short(s1), _short(r1))
     a, b = c1, r2
     if sort_rows:
         import numpy as np
@@ -616,7 +763,7 @@ def param_names(fn):
     return [p.name for p in ps]
 
 
-def variants(r, key, fn, args, pos, tol_exact, tol_single, names=None, skip=(), dev=None, kinds=None, what=None, model=None):
+def variants(r, key, fn, args, pos, tol_exact, tol_single, names=None, skip=(), dev=None, kinds=None, what=None, model=None, oracle=None):
     """Argument-kind x call-form probe.  fn(*args) is the reference outcome (float64 containers as built by the harness, positional);
     the argument at `pos` is then passed in every kind of alph.kinds (list, tuple, ndarray, strided view, Fortran order, whole numbers
     as ints / integer arrays, float32) x {positional, every argument by keyword}; each outcome must be the reference outcome:
@@ -626,7 +773,24 @@ def variants(r, key, fn, args, pos, tol_exact, tol_single, names=None, skip=(), 
     from . import alph
 
     args = list(args)
+    if oracle is not None:
+        # low-precision kinds FIRST (a memo keyed on the value would be filled at their precision), then the float64 reference call, which
+        # is judged against the independent expected value `oracle`
+        for kind, obj, prec in (kinds if kinds is not None else alph.kinds(args[pos])):
+            if kind in skip or prec != "single" and not kind.startswith("int") and kind != "np.int64":
+                continue
+            a = list(args)
+            a[pos] = obj
+            _outcome(fn, a, {})
     ref = _outcome(fn, args, {})
+    if oracle is not None:
+        r.evals += 1
+        fr, fo = (_flat(ref[1]) if ref[0] == "ok" else None), _flat(oracle)
+        d0 = float("inf") if fr is None or fo is None or fr.shape != fo.shape else (float(np.max(np.abs(fr - fo))) / max(1.0, float(np.max(np.abs(fo)))) if fo.size else 0.0)
+        if not d0 <= tol_exact:
+            r.violation("%s:arg%d:float64-after-low-precision-calls" % (key, pos),
+                        "the result for float64 arguments does not depend on earlier calls with the same value in lower precision", _short(oracle),
+                        _short(ref[1]) if ref[0] == "ok" else repr(ref[1]), tol_exact, d0, model=model)
     names = names or param_names(fn)
     n = 0
     for kind, obj, prec in (kinds if kinds is not None else alph.kinds(args[pos])):
@@ -638,10 +802,12 @@ def variants(r, key, fn, args, pos, tol_exact, tol_single, names=None, skip=(), 
         if names is not None and len(names) >= len(a):
             forms.append(("keywords", [], dict(zip(names, a))))
         for form, fa, fk in forms:
+            snap = _snap_args(fa, fk)
             got = _outcome(fn, fa, fk)
             r.evals += 1
             n += 1
             k = "%s:arg%d=%s:%s" % (key, pos, kind, form)
+            _args_unchanged(r, k, snap, fa, fk)
             w = what or "the result does not depend on the container / dtype of an argument nor on positional vs keyword passing"
             if ref[0] != got[0]:
                 r.violation(k, w, _short(ref[1]) if ref[0] == "ok" else repr(ref[1]), _short(got[1]) if got[0] == "ok" else repr(got[1]), model=model)
@@ -665,4 +831,74 @@ def variants(r, key, fn, args, pos, tol_exact, tol_single, names=None, skip=(), 
                     d = float(np.max(dd)) / max(1.0, float(np.nanmax(np.abs(fr))) if np.any(~np.isnan(fr)) else 1.0)
             if not d <= tol:
                 r.violation(k, w, _short(ref[1]), _short(got[1]), tol, d, model=model)
+    return n
+
+
+def poke(r, key, fn, junk):
+    """Error-path probe.  `junk` is a list of argument tuples OUTSIDE the property's domain (impossible cells, singular or NaN matrices,
+    wrong shapes, unknown names, None).  What the call does with them is not judged - it may raise anything or return anything - but it
+    must leave the process-wide state (env_snapshot) as it found it; the valid cases checked afterwards in the same process show whether
+    later in-domain calls are poisoned in some other way."""
+    import numpy as np
+
+    for args in junk:
+        before = env_snapshot()
+        try:
+            with np.errstate(all="ignore"):
+                fn(*args)
+        except Exception:  # noqa: BLE001
+            pass
+        after = env_snapshot()
+        # np.errstate restores the error state on exit; what the call did to it in between is read from a second run without the guard
+        try:
+            fn(*args)
+        except Exception:  # noqa: BLE001
+            pass
+        after2 = env_snapshot()
+        r.evals += 1
+        for k in before:
+            if after.get(k) != before[k] or after2.get(k) != before[k]:
+                r.violation("%s:junk=%s:environment:%s" % (key, _short(repr(args))[:80], k),
+                            "a call with out-of-domain arguments (whatever it returns or raises) leaves process-wide state (%s) as it found it" % k, before[k],
+                            after2.get(k) if after2.get(k) != before[k] else after.get(k))
+        if after2 != before:
+            env_restore(before)
+
+
+def cross_dirty(r, key, family, x1, x2, what=None):
+    """Interaction probe for a family of functions that take the same kind of argument.  For every ordered pair (f, g), f != g, and for
+    the argument held in a float64 ndarray and in a list:  buf <- x1;  f(buf);  buf[...] <- x2 (in place);  got = g(buf).  `got` must be
+    what g returns for a fresh object holding x2 (computed first, in a state where no f has seen the buffer; the property's own oracle
+    judges that value elsewhere).  State that one function leaves behind about an argument OBJECT (a memo keyed on identity, a remembered
+    reference) and that another function later reads shows up here.  family: [(name, callable taking the argument)]."""
+    import numpy as np
+
+    want = {}
+    for gname, g in family:
+        want[gname] = _outcome(g, [np.array(x2, float)], {})
+    n = 0
+    for kind in ("ndarray", "list"):
+        for fname, f in family:
+            for gname, g in family:
+                if fname == gname:
+                    continue
+                buf = np.array(x1, float) if kind == "ndarray" else np.asarray(x1, float).tolist()
+                _outcome(f, [buf], {})
+                new = np.asarray(x2, float)
+                if kind == "ndarray":
+                    buf[...] = new
+                elif new.ndim == 1:
+                    buf[:] = [float(v) for v in new]
+                else:
+                    for i_, row in enumerate(new.tolist()):
+                        buf[i_][:] = row
+                got = _outcome(g, [buf], {})
+                r.evals += 1
+                n += 1
+                ref = want[gname]
+                ok = ref[0] == got[0] and (ref[0] == "raise" or same_value(ref[1], got[1]))
+                if not ok:
+                    r.violation("%s:%s(buffer) after %s(buffer with other contents):%s" % (key, gname, fname, kind),
+                                what or "a function answers for the CURRENT contents of an argument object, whatever other function saw that object before",
+                                _short(ref[1]) if ref[0] == "ok" else repr(ref[1]), _short(got[1]) if got[0] == "ok" else repr(got[1]))
     return n
